@@ -4,6 +4,7 @@ import (
 	"context"
 	"fmt"
 	"net"
+	"strings"
 	"sync"
 	"time"
 
@@ -27,6 +28,9 @@ type apiEnv struct {
 	net *simnet.Net
 	srv apiserver.Server
 	cli apiclient.Client
+
+	mu  sync.Mutex
+	hub []simnet.HubEvent
 }
 
 func (e *apiEnv) close() {
@@ -39,7 +43,18 @@ func (e *apiEnv) close() {
 }
 
 func newAPIEnv(udp bool, mult int, noWait bool, patC, patS *appctlpb.TrafficPattern, onPair func(*simnet.StreamPair)) (*apiEnv, error) {
+	return newAPIEnvMTU(udp, mult, noWait, patC, patS, onPair, 1400, 1400)
+}
+
+func newAPIEnvMTU(udp bool, mult int, noWait bool, patC, patS *appctlpb.TrafficPattern, onPair func(*simnet.StreamPair), mtuC, mtuS int) (*apiEnv, error) {
 	e := &apiEnv{net: simnet.New()}
+	e.net.SetHubLog(func(ev simnet.HubEvent) {
+		if ev.Kind == "send" {
+			e.mu.Lock()
+			e.hub = append(e.hub, ev)
+			e.mu.Unlock()
+		}
+	})
 	e.net.OnStream = func(p *simnet.StreamPair) {
 		if onPair != nil {
 			onPair(p)
@@ -54,7 +69,7 @@ func newAPIEnv(udp bool, mult int, noWait bool, patC, patS *appctlpb.TrafficPatt
 	scfg := &appctlpb.ServerConfig{
 		PortBindings:   []*appctlpb.PortBinding{{Port: proto.Int32(443), Protocol: tp.Enum()}},
 		Users:          []*appctlpb.User{{Name: proto.String("alice"), Password: proto.String("alice-secret")}, {Name: proto.String("bob"), Password: proto.String("bob-secret")}},
-		Mtu:            proto.Int32(1400),
+		Mtu:            proto.Int32(int32(mtuS)),
 		TrafficPattern: patS,
 	}
 	if err := e.srv.Store(&apiserver.ServerConfig{Config: scfg, StreamListenerFactory: sep, PacketListenerFactory: simnet.PacketListener{E: sep}}); err != nil {
@@ -74,7 +89,7 @@ func newAPIEnv(udp bool, mult int, noWait bool, patC, patS *appctlpb.TrafficPatt
 		ProfileName:    proto.String("default"),
 		User:           &appctlpb.User{Name: proto.String("alice"), Password: proto.String("alice-secret")},
 		Servers:        []*appctlpb.ServerEndpoint{{IpAddress: proto.String("10.0.0.1"), PortBindings: []*appctlpb.PortBinding{{Port: proto.Int32(443), Protocol: tp.Enum()}}}},
-		Mtu:            proto.Int32(1400),
+		Mtu:            proto.Int32(int32(mtuC)),
 		Multiplexing:   &appctlpb.MultiplexingConfig{Level: lvl.Enum()},
 		HandshakeMode:  hm.Enum(),
 		TrafficPattern: patC,
@@ -145,17 +160,21 @@ func apiCase(c *Ctx, udp bool) *Result {
 		addrs[i], dests[i] = destFor(pick(r, "ipv4", "ipv6", "name"), i)
 	}
 	serverFirst := !noWait && r.Intn(2) == 0 // in the standard mode either side may speak first
-	params := map[string]interface{}{"udp": udp, "nsess": nsess, "multiplex": mult, "no_wait": noWait, "chunk_c2s": chunkC2S, "chunk_s2c": chunkS2C,
+	mtuC, mtuS := 1400, 1400
+	if udp {
+		mtuC, mtuS = pick(r, 1280, 1280, 1281, 1350, 1400, 1500), pick(r, 1280, 1280, 1281, 1350, 1400, 1500)
+	}
+	params := map[string]interface{}{"mtu_c": mtuC, "mtu_s": mtuS, "udp": udp, "nsess": nsess, "multiplex": mult, "no_wait": noWait, "chunk_c2s": chunkC2S, "chunk_s2c": chunkS2C,
 		"pat_c": patString(patC), "pat_s": patString(patS), "dests": dests, "server_first": serverFirst}
 	for i, p := range plans {
 		params[fmt.Sprintf("s%d", i)] = map[string]interface{}{"cw": p.W[0], "sw": p.W[1], "cr": p.R[1], "sr": p.R[0], "close_by": p.CloseBy}
 	}
 	c.Out.Start(prop, fmt.Sprintf("%s/%d/%d", name, c.Seed, c.Idx), c.Seed, params)
 	res := &Result{Params: params, Obs: map[string]float64{}}
-	env, err := newAPIEnv(udp, mult, noWait, patC, patS, func(p *simnet.StreamPair) {
+	env, err := newAPIEnvMTU(udp, mult, noWait, patC, patS, func(p *simnet.StreamPair) {
 		p.SetChunker(simnet.C2S, chunkerFor(chunkC2S, c.Seed*7+int64(c.Idx)*3+int64(p.ID)))
 		p.SetChunker(simnet.S2C, chunkerFor(chunkS2C, c.Seed*11+int64(c.Idx)*5+int64(p.ID)))
-	})
+	}, mtuC, mtuS)
 	if err != nil {
 		res.Verdict, res.Detail = Inconclusive, err.Error()
 		return res
@@ -348,6 +367,26 @@ func apiCase(c *Ctx, udp bool) *Result {
 	mu.Unlock()
 	res.Obs["bytes_compared"] = float64(total)
 	res.Obs["api_sessions"] = float64(nsess)
+	if udp {
+		// every datagram against the MTU configured in the sender's profile / server configuration
+		env.mu.Lock()
+		for _, ev := range env.hub {
+			lim := mtuC
+			who := "client (profile mtu)"
+			if strings.HasPrefix(ev.D.From, "10.0.0.1:") {
+				lim, who = mtuS, "server (configuration mtu)"
+			}
+			res.Obs["datagrams_measured"]++
+			if n := len(ev.D.Data); n > lim {
+				res.Also = append(res.Also, SideFinding{"C14", "C14|api|datagram>mtu", fmt.Sprintf("%s emitted a datagram of %d bytes, configured MTU %d", who, n, lim)})
+				break
+			}
+			if n := float64(len(ev.D.Data)); n > res.Obs["max_datagram"] {
+				res.Obs["max_datagram"] = n
+			}
+		}
+		env.mu.Unlock()
+	}
 	res.Shape = shapeHash(name, nsess, mult, noWait, chunkC2S, chunkS2C, patClass(patC), patClass(patS), serverFirst)
 	if sig != "" {
 		res.Verdict, res.Sig, res.Detail = Violated, prop+"|"+sig, detail
